@@ -1621,3 +1621,85 @@ def uninitialised_at_destructor(prog, fn):
                 if w is not None and any(x in fallible for x in w):
                     out.append((b, i, v, m["fn"], f, w))
     return out
+
+
+# ------------------------------------------------------------------------ borrowed element put into an owning list
+_owning_lists = {}
+
+
+def owning_list_types(prog):
+    """Typed list prefixes (X in X_append) whose constructor passes a destructor to KSI_List_new: such a list releases its elements."""
+    key = id(prog)
+    if key not in _owning_lists:
+        own = set()
+        for name, fns in prog.functions.items():
+            if not name.endswith("List_new") or name == "KSI_List_new":
+                continue
+            for f in fns:
+                for b, i, c in f.calls({"KSI_List_new"}):
+                    a0 = f.resolve(strip(c["a"][0])) if c["a"] else None
+                    while isinstance(a0, dict) and a0.get("k") == "cast":
+                        a0 = f.resolve(strip(a0["e"]))
+                    if a0 is not None and not is_null(a0):
+                        own.add(name[:-len("_new")])
+        _owning_lists[key] = own
+    return _owning_lists[key]
+
+
+def borrowed_into_owning_list(prog, fn, stats=None):
+    """`XList_append(dst, v)` (insertAt / replaceAt) where XList releases its elements and v was only *looked at* in another list
+    (`XList_elementAt(src, i, &v)`, src != dst, not removed from it) and no reference is taken: the element is in two owning lists and is
+    released twice.  [(block, idx, destination, source list, variable)]"""
+    own = owning_list_types(prog)
+    out = []
+    for b, i, n in fn.calls():
+        nm = n.get("fn") or ""
+        m = re.match(r"^(\w+List)_(append|insertAt|replaceAt)$", nm)
+        if not m or m.group(1) not in own:
+            continue
+        ai = 1 if m.group(2) == "append" else 2
+        if ai >= len(n["a"]):
+            continue
+        if stats is not None:
+            stats["puts"] = stats.get("puts", 0) + 1
+        v = fn.resolve(strip(n["a"][ai]))
+        g = 0
+        while isinstance(v, dict) and v.get("k") == "cast" and g < 4:
+            g += 1
+            v = fn.resolve(strip(v["e"]))
+        if not isinstance(v, dict) or v.get("k") != "var" or v.get("s") != "local":
+            continue
+        dst = lvalue_key(n["a"][0], fn) or show(n["a"][0], fn)
+        srcs = []
+        for d in fn.defs_at(b, i, v["n"]):
+            if d[0] == "param":
+                srcs.append(None)
+                continue
+            _v, kind, node = fn.def_info(d)
+            if kind == "out":
+                call, k = node
+                cn = call.get("fn") or ""
+                if cn.endswith("List_elementAt") and cn[:-len("_elementAt")] in own:
+                    src = lvalue_key(call["a"][0], fn) or show(call["a"][0], fn)
+                    srcs.append(src if src != dst else None)
+                else:
+                    srcs.append(None)
+            elif kind in ("asg", "init"):
+                rhs = fn.resolve(strip(node.get("r") if kind == "asg" else node.get("init")))
+                if is_null(rhs):
+                    continue
+                srcs.append(None)
+            else:
+                srcs.append(None)
+        if not srcs or any(s is None for s in srcs):
+            continue
+        # moved out of the source list somewhere in this function?
+        moved = False
+        for b2, i2, c2 in fn.calls():
+            cn = c2.get("fn") or ""
+            if cn.endswith("List_remove") and (lvalue_key(c2["a"][0], fn) or "") in srcs:
+                moved = True
+        if moved:
+            continue
+        out.append((b, i, dst, sorted(set(srcs)), v["n"]))
+    return out
